@@ -49,7 +49,8 @@ DEFS = {
 MAIN_INV = {
     # ---- bookkeeping
     "J0-ctx": "len(CTX) == len(stack) + 1 and CTX[len(stack)] == node and forall(range(len(stack)), lambda k: CTX[k] == stack[k])",
-    "J0-shape": "len(ABSK) == len(stack) + 1 and len(CIDX) == len(stack) + 1 and 0 <= i <= len(results) and DABS >= 0",
+    "J0-shape": "len(ABSK) == len(stack) + 1 and len(CIDX) == len(stack) + 1 and 0 <= i <= len(results)",
+    "J5-D-nonneg": "DABS >= 0",
     "J0-untouched": "forall(range(i, len(results)), lambda j: results[j].start == a_of(j) and results[j].end == b_of(j) and results[j].parent is None "
     "and nchildren(results[j]) == at(pre_L2, nchildren(results[j])))",
     "J0-batch-children": "forall(refs, lambda r: implies(fresh_batch(r) and forall(range(i), lambda j: r.own != results[j]), "
@@ -74,7 +75,7 @@ MAIN_INV = {
     "and nchildren(ctx(k)) > 0 and last(ctx(k)) == ctx(k + 1))",
     # ---- J4: sortedness carried forward
     "J4": "forall(range(i, len(results)), lambda j: ABSK[len(stack)] <= a_of(j))",
-    "J4-last-start": "forall(range(i, len(results)), lambda j: implies(nchildren(node) > 0, ABSK[len(stack)] + last(node).start <= a_of(j)))",
+    "J5-last-start": "forall(range(i, len(results)), lambda j: implies(nchildren(node) > 0, ABSK[len(stack)] + last(node).start <= a_of(j)))",
     "J4x": "forall((range(1, len(stack) + 1), range(i, len(results))), lambda k, j: ABSK[k] < a_of(j) or (ABSK[k] == a_of(j) and ext(k) >= b_of(j)))",
     "J4-sorted": "forall((range(len(results)), range(len(results))), lambda j1, j2: implies(j1 < j2, a_of(j1) < a_of(j2) or (a_of(j1) == a_of(j2) and b_of(j1) >= b_of(j2))))",
     # ---- J5: decode_end is the ABSOLUTE end of the last decoded hit, and the current context's last child ends at or before it
@@ -181,5 +182,44 @@ contract(
         "and r.value == old(r.value) and r.type == old(r.type) and r.own == old(r.own) and r.obfuscation == old(r.obfuscation)))",
         "frame-children": "forall(refs, lambda r: implies(r < old(alloc()) and not insub(old(node), r), "
         "nchildren(r) == old(nchildren(r)) and forall(range(nchildren(r)), lambda k: child_at(r, k) == old(child_at(r, k)))))",
+    },
+)
+
+
+contract(
+    "multidecoder.multidecoder.Multidecoder.scan",
+    props=["C01", "C03", "C07", "C09"],
+    types={"self": "obj:Multidecoder", "data": "bytes", "depth_limit": "int"},
+    returns="Node",
+    requires={"G1": G1, "G2": G2, "G-own": OWN_ALLOC},
+    fresh_nodes=True,
+    modifies={"children": ["*"]},
+    ensures={
+        # C03: the root carries the unmodified input
+        "root-is-fresh": "result >= old(alloc())",
+        "root-fields": "result.type == '' and result.value == data and result.obfuscation == '' and result.start == 0 and result.end == len(data) and result.parent is None",
+        "G1": G1,
+        "G2": G2,
+        "pre-existing-untouched": "forall(refs, lambda r: implies(r < old(alloc()), r.start == old(r.start) and r.end == old(r.end) and r.parent == old(r.parent) "
+        "and r.value == old(r.value) and r.type == old(r.type) and nchildren(r) == old(nchildren(r))))",
+    },
+)
+
+
+contract(
+    "multidecoder.registry.build_registry",
+    props=["C18"],
+    trusted=True,  # assumed here; C18 puts registry.py under contract
+    types={"directory": "str", "include": "obj:any", "exclude": "obj:any"},
+    returns="obj:registry",
+)
+
+contract(
+    "multidecoder.multidecoder.Multidecoder.__init__",
+    props=["C06"],
+    types={"self": "obj:Multidecoder", "decoders": "obj:registry?", "@fork_ifexp": "yes"},
+    ensures={
+        # C06 is stated for ANY registry the caller supplies, the empty one included
+        "keeps-the-given-registry": "implies(decoders is not None, self.decoders is decoders)",
     },
 )
